@@ -361,7 +361,7 @@ class World:
         return g
 
     def _join(self, group, kind, sig, payload, buf, root=None,
-              poison_buf=True):
+              poison_buf=True, check=()):
         r = _tls.rank
         g = self.group_of(group)
         self._park(r, ('ready', ('join', kind, g.gid)))
@@ -369,6 +369,19 @@ class World:
             self._violate(
                 'non-member',
                 f'rank{r} calls {kind} on {g} which it is not a member of')
+        tens = [buf] if isinstance(buf, torch.Tensor) else (
+            [t for t in buf if isinstance(t, torch.Tensor)]
+            if isinstance(buf, list) else [])
+        tens += list(check)
+        for t in tens:
+            if not t.is_contiguous():
+                # real backends operate on the raw storage (gloo) or raise
+                # (NCCL): passing a strided view is a caller error
+                self._violate(
+                    'non-contiguous',
+                    f'rank{r} passes a non-contiguous tensor (shape '
+                    f'{tuple(t.shape)}, stride {t.stride()}) to {kind} on '
+                    f'{g}')
         if root is not None and root not in g.ranks:
             self._violate(
                 'root', f'rank{r}: {kind} root {root} not in {g}')
@@ -502,7 +515,7 @@ class World:
                           f'{len(tensor_list)} != group size {len(g.ranks)}')
         fut = self._join(group, 'all_gather', sig,
                          tensor.detach().clone(), list(tensor_list),
-                         poison_buf=False)
+                         poison_buf=False, check=[tensor])
         if async_op:
             return Work(fut)
         self.wait_point(fut)
